@@ -158,6 +158,14 @@ def check_number(case, ctx):
                     raise Violation('number:leading-zero-not-omitted', f'{lit!r} -> {out!r}')
                 if not (omit and small) and oip == '':
                     raise Violation('number:leading-zero-missing', f'{lit!r} (omitLeadingZero={omit}) -> {out!r}')
+            # as an argument of a function the literal keeps value AND unit (a bare 0 is a number there, no length)
+            for wrap in ('calc(%s + 10%%)', 'f(%s, 1)', 'max(%s)'):
+                with lib('in-function'):
+                    inner = PropertyValue(wrap % lit).cssText
+                m = re.match(r'[a-z]+\(\s*([^\s,)]+)', inner)
+                io = frac_of(m.group(1)) if m else None
+                if io is None or io[4] != val or io[3] != unit.lower():
+                    raise Violation('number:changed-inside-function', f'{wrap % lit!r} -> {inner!r}')
             # the written literal parses back to the same thing
             with lib('reparse'):
                 pv2 = PropertyValue(out)
